@@ -1063,11 +1063,20 @@ def successor_is_sibling(prog, cg, eff, chk, rid):
                               'another sibling chain is accepted and the new crate vanishes from children()' % _short(qn))
 
 
-def _is_plain_comparison(c, want_parent):
-    """c is `parentListId(R) != P` (either operand order), possibly a disjunct of an || chain."""
-    if c[0] == 'op' and c[1] in ('||',):
-        return any(_is_plain_comparison(a, want_parent) for a in c[2])
-    if c[0] == 'op' and c[1] in ('!=', 'operator!='):
+def _is_plain_comparison(c, want_parent, neg=False):
+    """c is `parentListId(R) != P` (either operand order), possibly a disjunct of an || chain.  The test is
+    read with its polarity: `!(parentListId(R) == P)` (a named `is_sibling` flag that is negated, the else
+    branch of the equality, a conjunct under a negation - De Morgan) is the same condition."""
+    if c is None or not isinstance(c, tuple) or not c:
+        return False
+    if c[0] in ('call', 'callm') and c[3] is not None:
+        # a predicate helper of the repository: what its body computes
+        return _is_plain_comparison(c[3], want_parent, neg)
+    if c[0] == 'op' and c[1] in ('!', 'operator!') and len(c[2]) == 1:
+        return _is_plain_comparison(c[2][0], want_parent, not neg)
+    if c[0] == 'op' and c[1] == ('&&' if neg else '||'):
+        return any(_is_plain_comparison(a, want_parent, neg) for a in c[2])
+    if c[0] == 'op' and c[1] in (('==', 'operator==') if neg else ('!=', 'operator!=')):
         a, b = c[2][0], c[2][1]
         for x, y in ((a, b), (b, a)):
             lx = [l for l in vf.leaves(x) if l[0] == 'loc']
